@@ -16,12 +16,13 @@ VERIF = mir.VERIF
 # property -> list of rule modules (each has run(ctx)); shared modules implement dependencies between properties
 PROPERTIES = {
     'C01': ['c01'],
-    'C02': ['c02'],
+    'C02': ['c02', 'c03', 'c11', 'c13'],
     'C03': ['c03', 'c11'],
-    'C05': ['c05'],
+    'C05': ['c05', 'c19'],
     'C06': ['c06'],
     'C08': ['c08'],
     'C09': ['c09'],
+    'C10': ['c10'],
     'C11': ['c11'],
     'C12': ['c12'],
     'C13': ['c13'],
